@@ -71,6 +71,7 @@ func (e *Engine) strOf(st *State, arr, off, n T) T {
 	k := T{v, SInt}
 	e.assume(st, Forall([]string{v}, Implies(And(Le(I(0), k), Lt(k, n)), Eq(e.sbyte(r, k), Sel(arr, Add(off, k))))), "string(bytes) content")
 	e.strTerms = append(e.strTerms, strTerm{r, arr, off, n})
+	e.strIDs = append(e.strIDs, r)
 	return r
 }
 
@@ -312,10 +313,7 @@ func (e *Engine) evalReceiver(st *State, sel *ast.SelectorExpr, fn *types.Func) 
 	_, havePtr := under(xt).(*types.Pointer)
 	switch {
 	case wantPtr && havePtr:
-		if p.isAddr {
-			return e.loadAt(st, p.addr, p.typ)
-		}
-		return p.val
+		return e.loadPlace(st, p)
 	case wantPtr && !havePtr:
 		if p.isAddr {
 			return RefV{p.addr}
@@ -329,19 +327,11 @@ func (e *Engine) evalReceiver(st *State, sel *ast.SelectorExpr, fn *types.Func) 
 		e.abstract("pointer-receiver call on a non-addressable value (temporary copy)")
 		return RefV{a}
 	case !wantPtr && havePtr:
-		var ref T
-		if p.isAddr {
-			ref = e.asInt(e.loadAt(st, p.addr, p.typ), sel)
-		} else {
-			ref = e.asInt(p.val, sel)
-		}
+		ref := e.asInt(e.loadPlace(st, p), sel)
 		e.oblige(st, "nil", e.slug(sel.X), Ne(ref, I(0)), sel.Pos(), nil)
 		return e.loadAt(st, ref, recvT)
 	default:
-		if p.isAddr {
-			return e.loadAt(st, p.addr, p.typ)
-		}
-		return p.val
+		return e.loadPlace(st, p)
 	}
 }
 
@@ -780,54 +770,27 @@ func (e *Engine) evalAppend(st *State, call *ast.CallExpr) Value {
 // ---------------------------------------------------------------------------------------
 // Contract calls.
 
-func (e *Engine) resultObjects(fc *FuncContract) []*types.Var {
+// resultTypes lists the result types of the function a contract is bound to.
+func (e *Engine) resultTypes(fc *FuncContract) []types.Type {
 	var sig *types.Signature
-	var ftype *ast.FuncType
 	if fc.lit != nil {
 		sig = fc.pkg.TypesInfo.TypeOf(fc.lit).(*types.Signature)
-		ftype = fc.lit.Type
-	} else if fc.ext {
-		return fc.extResults
 	} else {
 		sig = fc.fn.Type().(*types.Signature)
-		ftype = fc.decl.Type
 	}
-	scope := fc.pkg.TypesInfo.Scopes[ftype]
-	var out []*types.Var
-	res := sig.Results()
-	for i := 0; i < res.Len(); i++ {
-		r := res.At(i)
-		if r.Name() == "" || r.Name() == "_" {
-			nm := "result"
-			if res.Len() > 1 {
-				nm = fmt.Sprintf("result%d", i)
-			}
-			if o, ok := scope.Lookup(nm).(*types.Var); ok {
-				out = append(out, o)
-				continue
-			}
-		}
-		out = append(out, r)
+	var out []types.Type
+	for i := 0; i < sig.Results().Len(); i++ {
+		out = append(out, sig.Results().At(i).Type())
 	}
 	return out
 }
 
-func (e *Engine) errAlias(fc *FuncContract) *types.Var {
-	if fc.ext || fc.decl == nil {
-		return nil
+func bindResults(fc *FuncContract, env map[types.Object]Value, vals []Value) {
+	for _, a := range fc.resAlias {
+		if a.idx < len(vals) {
+			env[a.obj] = vals[a.idx]
+		}
 	}
-	ftype := fc.decl.Type
-	if fc.lit != nil {
-		ftype = fc.lit.Type
-	}
-	scope := fc.pkg.TypesInfo.Scopes[ftype]
-	if scope == nil {
-		return nil
-	}
-	if o, ok := scope.Lookup("err").(*types.Var); ok {
-		return o
-	}
-	return nil
 }
 
 func (e *Engine) paramObjects(fc *FuncContract) []*types.Var {
@@ -904,16 +867,12 @@ func (e *Engine) callContract(st *State, fc *FuncContract, args []Value, call *a
 			}
 		}
 	}
-	results := e.resultObjects(fc)
 	var vals TupleV
-	for _, r := range results {
-		v := e.symbolic(st, "r_"+sanitize(shortName(fc.key)), r.Type())
-		env[r] = v
+	for _, rt := range e.resultTypes(fc) {
+		v := e.symbolic(st, "r_"+sanitize(shortName(fc.key)), rt)
 		vals = append(vals, v)
 	}
-	if ea := e.errAlias(fc); ea != nil && len(vals) > 0 {
-		env[ea] = vals[len(vals)-1]
-	}
+	bindResults(fc, env, vals)
 	e.oldState = pre
 	for _, ens := range fc.ensures {
 		g := e.evalClause(st, ens, env)
@@ -942,18 +901,36 @@ func (e *Engine) havocTarget(st *State, v Value, t types.Type, cl *Clause) {
 			st.Mem = e.name("Mem", Sto(st.Mem, x.t, e.fresh("havoc_arr", SArr)))
 			return
 		}
-		newHI := e.fresh("HI_mod", SArr)
-		e.nsym++
-		kv := fmt.Sprintf("k!%d", e.nsym)
-		k := T{kv, SInt}
-		e.assume(st, Forall([]string{kv}, Implies(Or(Lt(k, x.t), Ge(k, Add(x.t, I(int64(n))))), Eq(Sel(newHI, k), Sel(st.HI, k)))), "frame of modifies")
-		st.HI = newHI
+		_ = n
+		e.havocCells(st, x.t, pt.Elem(), scalarKey(pt.Elem()))
 		// array-typed fields own blocks at their cell address
 		e.havocArrayFields(st, x.t, pt.Elem())
 	case SliceV:
 		st.Mem = e.name("Mem", Sto(st.Mem, x.blk, e.fresh("havoc_arr", SArr)))
 	default:
 		e.fail(cl.expr, "unsupported modifies target %T", v)
+	}
+}
+
+// havocCells overwrites the scalar cells of an object of type t at base with arbitrary values.
+func (e *Engine) havocCells(st *State, base T, t types.Type, key string) {
+	switch u := under(t).(type) {
+	case *types.Array:
+		return
+	case *types.Struct:
+		off := 0
+		sk := e.structKey(u, t)
+		for i := 0; i < u.NumFields(); i++ {
+			ft := u.Field(i).Type()
+			e.havocCells(st, Add(base, I(int64(off))), ft, sk+"."+u.Field(i).Name())
+			off += e.cells(ft)
+		}
+	default:
+		h := e.heapGet(st, key)
+		for i := 0; i < e.cells(t); i++ {
+			h = Sto(h, Add(base, I(int64(i))), e.fresh("hv", SInt))
+		}
+		e.heapSet(st, key, e.name("H", h))
 	}
 }
 
@@ -1126,15 +1103,66 @@ func (e *Engine) evalSpecHelper(st *State, call *ast.CallExpr, name string) Valu
 		}
 	case "pure":
 		return e.eval(st, call.Args[0])
+	case "b2i":
+		return IntV{B2I(e.asBool(e.eval(st, call.Args[0]), call))}
+	case "has":
+		m := e.eval(st, call.Args[0])
+		k := e.mapKey(st, e.eval(st, call.Args[1]), call.Args[1])
+		return BoolV{e.mapHas(st, m, k)}
+	case "gmap":
+		cv := e.constOf(call.Args[0])
+		if cv == nil {
+			e.fail(call, "gmap needs a constant name")
+		}
+		gname := "gm_" + sanitize(strings.Trim(cv.ExactString(), "\""))
+		var argTs []T
+		for _, a := range call.Args[1:] {
+			v := e.eval(st, a)
+			argTs = append(argTs, e.flatten(st, v, e.typeOf(a))...)
+		}
+		// only the identity (first cell) of reference-like arguments matters
+		if len(call.Args) == 2 {
+			argTs = argTs[:1]
+		}
+		decl := fmt.Sprintf("(declare-fun %s (%s) Int)", gname, strings.TrimSpace(strings.Repeat("Int ", len(argTs))))
+		e.declareUF(gname, decl)
+		r := app(SInt, gname, argTs...)
+		// ghost maps live at negative references: never nil, never a program allocation
+		e.ghostMapAxiom(gname, len(argTs))
+		return RefV{r}
 	}
 	e.fail(call, "unknown spec helper %s", name)
 	return nil
+}
+
+func (e *Engine) ghostMapAxiom(gname string, n int) {
+	key := "axiom:" + gname
+	if e.assumptions[key] {
+		return
+	}
+	e.assumptions[key] = true
+	var vars []string
+	var args []T
+	for i := 0; i < n; i++ {
+		v := fmt.Sprintf("a%d", i)
+		vars = append(vars, v)
+		args = append(args, T{v, SInt})
+	}
+	e.assumeGlobal(Forall(vars, Lt(app(SInt, gname, args...), I(0))), "ghost map references are negative")
 }
 
 type bytesOp struct{ arr, off, n T }
 
 // bytesOperand views a slice, array, pointer-to-array or string as (array, offset, length).
 func (e *Engine) bytesOperand(st *State, x ast.Expr) bytesOp {
+	// old(e): header and contents both from the pre-state
+	if c, ok := x.(*ast.CallExpr); ok && len(c.Args) == 1 {
+		if id, ok := c.Fun.(*ast.Ident); ok && id.Name == "old" {
+			if f, ok := e.pkg.info.Uses[id].(*types.Func); ok && f.Pkg() == nil && e.oldState != nil {
+				return e.bytesOperand(e.oldState, c.Args[0])
+			}
+		}
+	}
 	t := e.typeOf(x)
 	switch u := under(t).(type) {
 	case *types.Slice:
